@@ -78,6 +78,8 @@ type ViolationRec struct {
 	Signature string         `json:"signature"`
 	Shrunk    bool           `json:"shrunk"`
 	FromSeed  bool           `json:"from_seed,omitempty"`
+	RunFrom   *int           `json:"run_from,omitempty"`  // range replay: runs run_from..run of the seed in one process (state carried between runs)
+	WorkerFrom int           `json:"worker_from"`
 	ShrinkLog string         `json:"shrink_log,omitempty"`
 }
 
@@ -336,7 +338,7 @@ func cmdRun(args []string) {
 			}
 			sigs[sig] = true
 			// re-run with full tracing to produce a readable record
-			rec := ViolationRec{Property: *prop, Engine: opt.Engine, Tier: *tier, VerifSeed: *seed, Run: i,
+			rec := ViolationRec{Property: *prop, Engine: opt.Engine, Tier: *tier, VerifSeed: *seed, Run: i, WorkerFrom: *from,
 				Draws: ch.Values(), Violation: f, Signature: sig, Config: res.Config, Trace: res.Trace, Faults: res.Faults}
 			w.Violations = append(w.Violations, rec)
 		}
@@ -429,6 +431,23 @@ func cmdReplay(args []string) {
 	strict := fs.Bool("strict", false, "only the recorded signature counts")
 	fs.Parse(args)
 	rec := loadRec(*file)
+	if rec.RunFrom != nil {
+		// state carried from earlier runs of the same process is part of this finding: re-execute the whole range
+		rl := newRaceLog()
+		opt := Options{Prop: rec.Property, Engine: rec.Engine, Tier: rec.Tier, Scenario: -1}
+		for i := *rec.RunFrom; i <= rec.Run; i++ {
+			ch := simrt.NewChooser(simrt.Mix(rec.VerifSeed, uint64(i)))
+			res, _ := oneRun(ch, opt, rl)
+			for _, f := range res.Failures {
+				if f.concerns(rec.Property) && (i == rec.Run || !*strict) {
+					fmt.Printf("REPRODUCED property=%s signature=%s in run %d of the range %d..%d: %s\n", rec.Property, f.sigFor(rec.Property), i, *rec.RunFrom, rec.Run, f.Msg)
+					os.Exit(1)
+				}
+			}
+		}
+		fmt.Printf("REPLAY property=%s holds on runs %d..%d\n", rec.Property, *rec.RunFrom, rec.Run)
+		os.Exit(0)
+	}
 	f, res, _ := replayOnce(rec, rec.Draws, newRaceLog(), !*strict)
 	if *verbose {
 		for _, t := range res.Trace {
